@@ -16,12 +16,16 @@ template <typename CharT>
 template <typename CharT, typename SizeT>
 [[nodiscard]] constexpr auto strncpy(CharT* dest, CharT const* src, SizeT count) -> CharT*
 {
-    auto* temp = dest;
-    for (SizeT counter = 0; counter != count and *src != CharT(0);) {
+    auto* temp    = dest;
+    SizeT counter = 0;
+    for (; counter != count and *src != CharT(0); ++counter) {
         *dest = *src;
         ++src;
         ++dest;
-        ++counter;
+    }
+    for (; counter != count; ++counter) {
+        *dest = CharT(0);
+        ++dest;
     }
 
     return temp;
